@@ -208,6 +208,11 @@ func analyse(body string) *view {
 	var raw json.RawMessage
 	if err := dec.Decode(&raw); err == nil {
 		v.firstEnd = int(dec.InputOffset())
+		// a bare literal (null, true, false, a number) is only complete once the decoder has seen
+		// the byte AFTER it or a clean end of input: it needs one more successful read
+		if t := strings.TrimSpace(string(raw)); t != "" && t[0] != '{' && t[0] != '[' && t[0] != '"' {
+			v.firstEnd++
+		}
 		var t target
 		r := graphql.Response{Data: &t}
 		if err := json.Unmarshal(raw, &r); err == nil {
